@@ -28,7 +28,9 @@ ASSUMPTIONS = [
     'range_lookup TRUE and MATCH type -1 are not generated',
 ]
 
-WORDS = ['foo', 'Bar', 'qux', 'zed', 'FOO', 'bar', 'kiwi', 'plum']
+WORDS = ['foo', 'Bar', 'qux', 'zed', 'FOO', 'bar', 'kiwi', 'plum',
+         # blanks at either end or inside are part of the text
+         'foo ', ' foo', 'ba r', 'Bar ']
 OPS = ['', '=', '<>', '<', '<=', '>', '>=']
 
 
